@@ -118,6 +118,9 @@ SCALARS = ["uint64_t", "int32_t", "uintptr_t", "uint8_t", "bool"]
 OUT_SLOT = "struct CTup2_CSliceRef_u8__usize *"
 RICH_ARGS = ["struct ArgPair", "struct CSliceRef_u8", "const uint8_t *", "void *", "struct Callback_c_void__{cb}", OUT_SLOT]
 CB_PAYLOAD_CTYPE = {"ArgPair": "struct ArgPair", "u64": "uint64_t"}
+EXTRA_CB_CTYPE = {"u32": "uint32_t", "i64": "int64_t", "u8": "uint8_t"}
+TRAILING_WS_DOC = "/**\n * Bytes at the end.  \n * (the line above ends in a hard line break)\t\n */\n"
+TRAILING_WS_MARK = " * Bytes at the end.  \n * (the line above ends in a hard line break)\t\n"
 
 
 def ctx_type(ctx):
@@ -243,6 +246,10 @@ def gen_model(seed):
         "foreign_early": r.chance(1, 2),
         "foreign_names": r.chance(1, 2),
         "guard": r.chance(1, 2),
+        # a user comment with markdown hard line breaks (trailing blanks) - text the tool has to pass through
+        "trailing_ws": r.chance(1, 2),
+        # callback instantiations beyond the one the vtables use (the C helpers are emitted per payload type)
+        "extra_callbacks": [["u32"], ["u32", "i64", "u8"], [], []][r.below(4)],
     }
     return model
 
@@ -332,6 +339,8 @@ def render(model):
         w("/**\n * FFI-safe 2 element tuple.\n */\ntypedef struct CTup2_CSliceRef_u8__usize {\n    struct CSliceRef_u8 _0;\n    uintptr_t _1;\n} CTup2_CSliceRef_u8__usize;\n")
     cb = model.get("callback_payload", "ArgPair")
     w("/**\n * FFI-safe callback.\n */\ntypedef struct Callback_c_void__%s {\n    void *context;\n    bool (*func)(void*, %s);\n} Callback_c_void__%s;\n" % (cb, CB_PAYLOAD_CTYPE[cb], cb))
+    for x in model.get("extra_callbacks", []):
+        w("/**\n * FFI-safe callback.\n */\ntypedef struct Callback_c_void__%s {\n    void *context;\n    bool (*func)(void*, %s);\n} Callback_c_void__%s;\n" % (x, EXTRA_CB_CTYPE[x], x))
     if model["foreign_names"]:
         # user declarations whose names resemble CGlue patterns
         w("/**\n * Not a CGlue vtable, despite the name.\n */\ntypedef struct UserVtblLike {\n    void (*callback)(void *ctx);\n    uintptr_t RetTmp_count;\n} UserVtblLike;\n")
@@ -391,7 +400,11 @@ def render(model):
     if model["leftover"]:
         # a structure cbindgen left generic over the context
         w("/**\n * Holder that is generic over the context.\n */\ntypedef struct Holder_____c_void__Context {\n    void *instance;\n    Context context;\n    uint32_t flags;\n} Holder_____c_void__Context;\n\n")
-    w("typedef struct UserTail {\n    uint8_t bytes[4];\n} UserTail;\n")
+    if model.get("trailing_ws"):
+        w(TRAILING_WS_DOC + "typedef struct UserTail {\n    uint8_t bytes[4];\n} UserTail;\n")
+        foreign.append(TRAILING_WS_MARK)
+    else:
+        w("typedef struct UserTail {\n    uint8_t bytes[4];\n} UserTail;\n")
     foreign.append("typedef struct UserTail {")
     w("#ifdef __cplusplus\nextern \"C\" {\n#endif // __cplusplus\n")
     w("void user_free_function(struct UserTail *tail, uintptr_t n);\n")
@@ -665,6 +678,9 @@ def render_cpp(model):
         w("/**\n * CtxBoxed CGlue trait object for trait %s with context.\n */\ntemplate<typename CGlueT, typename CGlueCtx>\nusing %sBaseCtxBox = %sBase<CBox<CGlueT>, CGlueCtx>;\n" % (T, T, T))
         w("/**\n * Boxed CGlue trait object for trait %s with a [`CArc`](cglue::arc::CArc) reference counted context.\n */\ntemplate<typename CGlueT, typename CGlueC>\nusing %sBaseArcBox = %sBaseCtxBox<CGlueT, CArc<CGlueC>>;\n" % (T, T, T))
         w("/**\n * Opaque Boxed CGlue trait object for trait %s with a [`CArc`](cglue::arc::CArc) reference counted context.\n */\nusing %sArcBox = %sBaseArcBox<void, void>;\n" % (T, T, T))
+    if m.get("trailing_ws"):
+        w(TRAILING_WS_DOC.rstrip("\n"))
+        foreign.append(TRAILING_WS_MARK)
     w("struct UserTail {\n    uint8_t bytes[4];\n};\n")
     foreign.append("struct UserTail {")
     w("extern \"C\" {\n")
